@@ -252,6 +252,34 @@ func verifyLemma(prog *Prog, sp *FuncSpec) (res *FuncResult) {
 	for _, c := range sp.Requires {
 		st.assume(fv.evalWrapper(sp.PkgPath, c.Wrapper, vals, st, nil))
 	}
+	// pragma induction <param>: the lemma may be used for param-1 (induction hypothesis). Sound
+	// for a typed machine integer: a counterexample n with requires(n) && !ensures(n) yields one at
+	// n-1 (otherwise the hypothesis would give ensures(n-1) and the step ensures(n)), and the
+	// descent cannot go below the type's minimum, where the hypothesis is vacuous.
+	if ind := strings.TrimSpace(sp.Pragmas["induction"]); ind != "" {
+		k := -1
+		for i := 0; i < sig.Params().Len(); i++ {
+			if sig.Params().At(i).Name() == ind {
+				k = i
+			}
+		}
+		if k < 0 || vals[k].Sort == nil || vals[k].Sort.Kind != KInt || !isInteger(sig.Params().At(k).Type()) {
+			reject("pragma induction %s: not an integer parameter of lemma %s", ind, sp.Name)
+		}
+		prev := append([]Term(nil), vals...)
+		prev[k] = fv.u.define(ind+"_prev", mk(sortInt, "(- %s 1)", vals[k].S))
+		tmp := &State{vars: map[types.Object]Term{}, heaps: st.heaps}
+		hyp := []Term{fv.u.inRange(sig.Params().At(k).Type(), prev[k])}
+		for _, c := range sp.Requires {
+			hyp = append(hyp, fv.evalWrapper(sp.PkgPath, c.Wrapper, prev, tmp, nil))
+		}
+		var concl []Term
+		for _, c := range sp.Ensures {
+			concl = append(concl, fv.evalWrapper(sp.PkgPath, c.Wrapper, prev, tmp, tmp))
+		}
+		st.assume(implies(and(hyp...), and(concl...)))
+		fv.u.note("lemma %s proved by induction on %s (hypothesis assumed for %s-1)", sp.Name, ind, ind)
+	}
 	fv.entry = st.clone()
 	fv.cover(st, "pre", boolT(true), "lemma hypothesis is satisfiable")
 	for i, c := range sp.Ensures {
@@ -281,8 +309,11 @@ func (fv *FuncVerifier) assumeLemma(st *State, name string) {
 	for i := 0; i < sig.Params().Len(); i++ {
 		p := sig.Params().At(i)
 		s := fv.mustSort(p.Type(), "lemma parameter")
-		if s.Kind != KInt && s.Kind != KBool {
-			reject("use_lemma %s: parameter %s is neither an integer nor a boolean", name, p.Name())
+		if s.Kind != KInt && s.Kind != KBool && s.Kind != KSlice && s.Kind != KStruct {
+			reject("use_lemma %s: parameter %s has a sort that cannot be quantified here", name, p.Name())
+		}
+		if s.Kind == KSlice {
+			hyp = append(hyp, mk(sortBool, "(>= %s 0)", slLen(Term{fmt.Sprintf("l!%s!%s", name, p.Name()), s}).S))
 		}
 		v := Term{fmt.Sprintf("l!%s!%s", name, p.Name()), s}
 		binders = append(binders, fmt.Sprintf("(%s %s)", v.S, s.Name))
